@@ -418,6 +418,8 @@ class Fixture:  # pylint: disable=too-many-instance-attributes
             ent = self._make_data(ws, holder, name)
             if ent is None:
                 raise Skip(f"{name}: add_data returned None")
+            if getattr(ent, "values", None) is not None and isinstance(ent.values, np.ndarray):
+                self.kwargs["values"] = np.array(ent.values, copy=True)
             if type(ent).__name__ != name:
                 raise Skip(f"{name}: the API built a {type(ent).__name__} instead")
             self.uid = ent.uid
@@ -765,7 +767,7 @@ def domain(fx: Fixture, ent, attr, cur):  # pylint: disable=too-many-return-stat
     if attr == "values" and name == "ReferencedData":
         arr = np.asarray(cur)
         return [arr[::-1].copy(), np.where(arr == 1, 2, 1).astype(arr.dtype)], base
-    if attr == "values" and cur is None:
+    if attr == "values" and cur is None and "values" not in fx.kwargs:
         raise Skip("no stored values to derive a domain from")
     if attr == "image":
         from PIL import Image
